@@ -1130,8 +1130,15 @@ pub fn suite_history(out: &mut Out, tier: &str, rng: &mut Rng) {
                 }
             }
         }
-        // the same octets under every option set, back to back (a result must not depend on what
-        // an earlier call with other options accepted)
+        // the same octets under lax and then strict options, adjacent in the even rounds and apart in the
+        // odd (reversed) ones: a result must not depend on what an earlier call accepted
+        for _ in 0..10 {
+            let w = (rng.next() as u16 & 0xd30f) | (*rng.pick(&[0u16, 0x10, 0x20, 0x20, 0x30]));
+            let b = tail_for(w, rng);
+            calls.push(json!({"op": "decode", "in": bytes_json(&b), "opts": [false, false, false], "entry": "validate", "rdr": "slice", "id": 0}));
+            calls.push(json!({"op": "decode", "in": bytes_json(&b), "opts": [true, true, true], "entry": "validate", "rdr": "slice", "id": 0}));
+            calls.push(json!({"op": "decode", "in": bytes_json(&b), "opts": [false, true, false], "entry": "default", "rdr": "slice", "id": 0}));
+        }
         for _ in 0..12 {
             let w = (rng.next() as u16 & 0xd30f) | (*rng.pick(&[0u16, 0x10, 0x20, 0x20, 0x30]));
             calls.push(json!({"op": "decode_opts", "in": bytes_json(&tail_for(w, rng)), "id": 0}));
